@@ -29,18 +29,20 @@ C05_SHAPES = {
 }
 
 
-def c05_program(pid, shape, is_async, ret, explicit_static=False):
+def c05_program(pid, shape, is_async, ret, explicit_static=False, explicit_lt=False):
+    """explicit_lt: the dependency reference carries a named lifetime parameter of the fn (`fn leaf<'a>(deps: &'a C, ..) -> &'a u32`)"""
     decl, ty, ctor, acc = C05_SHAPES[shape]
     asy = 'async ' if is_async else ''
     aw = ' rt::YieldOnce(false).await;' if is_async else ''
-    refty = "&'static " + ty if explicit_static else '&' + ty
+    refty = "&'static " + ty if explicit_static else (("&'a " + ty) if explicit_lt else '&' + ty)
+    lt_gen = "<'a>" if explicit_lt else ''
     if ret == 'owned':
         rty, rexpr = 'u64', f'rt::mix(rt::mix(rt::mix(5, {acc} as u64), q1 as u64), q0 as u64)'
     else:  # borrowed from deps
-        rty, rexpr = ('&u32' if not explicit_static else "&'static u32"), f'&{acc}'
+        rty, rexpr = ("&'static u32" if explicit_static else ("&'a u32" if explicit_lt else '&u32')), f'&{acc}'
     src = PRELUDE + PROBE + decl + '\n'
     src += (f'#[::entrait::entrait(pub Leaf)]\n'
-            f'pub {asy}fn leaf(deps: {refty}, q1: u32, q0: u32) -> {rty} {{\n'
+            f'pub {asy}fn leaf{lt_gen}(deps: {refty}, q1: u32, q0: u32) -> {rty} {{\n'
             f'    rt::trace(1, 0, rt::addr(deps), 2, [q1 as u64, q0 as u64, 0, 0, 0, 0]);{aw}\n'
             f'    {rexpr}\n}}\n')
     # a downstream application adopting the trait by hand
@@ -50,9 +52,9 @@ def c05_program(pid, shape, is_async, ret, explicit_static=False):
         hand_ret = 'rt::mix(a as u64, b as u64)'
     else:
         hand_ret = '&self.id'
-    recv = "&'static self" if explicit_static else '&self'
+    recv = "&'static self" if explicit_static else ("&'a self" if explicit_lt else '&self')
     src += (f'pub struct HandApp {{ pub id: u32 }}\n'
-            f'impl Leaf for HandApp {{\n    {asy}fn leaf({recv}, a: u32, b: u32) -> {rty} {{ {hand_body} {hand_ret} }}\n}}\n'
+            f'impl Leaf for HandApp {{\n    {asy}fn leaf{lt_gen}({recv}, a: u32, b: u32) -> {rty} {{ {hand_body} {hand_ret} }}\n}}\n'
             f'pub struct NoLeaf;\n'
             f'impl<T: Leaf> Probe<T> {{ pub fn yes(&self) -> bool {{ true }} }}\n')
     hs = []
@@ -118,7 +120,7 @@ def c05_program(pid, shape, is_async, ret, explicit_static=False):
             f'    assert!(!Probe::<Impl<NoLeaf>>(core::marker::PhantomData).yes(), "Impl<X>: !Leaf for X without the trait");\n'
             f'    kani::cover!(true);\n}}\n')
     hs.append(h)
-    desc = f'concrete deps shape={shape} async={is_async} ret={ret} static={explicit_static}'
+    desc = f'concrete deps shape={shape} async={is_async} ret={ret} static={explicit_static}' + (' named-lifetime' if explicit_lt else '')
     return Program(pid, desc, src, hs, ['C05'])
 
 
@@ -180,6 +182,10 @@ def c05_corpus(tier, seed):
         for ret in ('owned', 'borrowed'):
             k += 1
             progs.append(c05_program(f'c05_{k:03d}', 'ident', is_async, ret, explicit_static=True))
+    # "reference with explicit lifetime": a named lifetime parameter of the fn on the dependency reference
+    for shape, is_async, ret in (('ident', False, 'borrowed'), ('ident', False, 'owned'), ('generic', False, 'borrowed'), ('ident', True, 'borrowed')):
+        k += 1
+        progs.append(c05_program(f'c05_{k:03d}', shape, is_async, ret, explicit_lt=True))
     return progs
 
 
@@ -372,7 +378,9 @@ def c07_program(pid, dynamic, n_methods, is_async, async_trait, impl_deps, same_
     aw = ' rt::YieldOnce(false).await;' if is_async else ''
     src = PRELUDE + PROBE
     src += ('#[::entrait::entrait(pub Baz)]\npub fn baz<D>(deps: &D, q: u32) -> u64 { rt::mix(77, q as u64) }\n')
-    sel = 'delegate_by = ref' if dynamic else 'delegate_by = DelegateRepo'
+    # dynamic: False (static, custom delegation trait) | True / 'ref' (AsRef) | 'Borrow'
+    borrow = dynamic == 'Borrow'
+    sel = ('delegate_by = Borrow' if borrow else 'delegate_by = ref') if dynamic else 'delegate_by = DelegateRepo'
     src += f'#[::entrait::entrait(pub RepoImpl, {sel})]\n{at}pub trait Repo {{\n'
     for i in range(n_methods):
         src += f'    {asy}fn m{i + 1}(&self, q1: u32, q0: u32) -> u64;\n'
@@ -394,6 +402,9 @@ def c07_program(pid, dynamic, n_methods, is_async, async_trait, impl_deps, same_
                 gen, dp, use = '', 'deps: &impl HasId', ' let r = rt::mix(r, deps.id() as u64);'
             elif dk == 'idtag':
                 gen, dp, use = '', 'deps: &(impl HasId + HasTag)', ' let r = rt::mix(r, deps.id() as u64); let r = rt::mix(r, deps.tag() as u64);'
+            elif dk == 'twolast':
+                # two different traits with the same last path segment: both stay required
+                gen, dp, use = '', 'deps: &(impl la::Look + lb::Look)', ' let r = rt::mix(r, la::Look::look(deps) as u64); let r = rt::mix(r, lb::Look::look(deps) as u64);'
             else:
                 gen, dp, use = '', 'deps: &impl Baz', ' let r = rt::mix(r, deps.baz(q1));'
             s += (f'    pub {asy}fn m{i + 1}{gen}({dp}, q1: u32, q0: u32) -> u64 {{\n'
@@ -402,15 +413,22 @@ def c07_program(pid, dynamic, n_methods, is_async, async_trait, impl_deps, same_
                   f'        rt::mix(rt::mix(r, q1 as u64), q0 as u64)\n    }}\n')
         s += '}\n'
         return s
+    if 'twolast' in impl_deps:
+        src += ('pub mod la { pub trait Look { fn look(&self) -> u32; } }\npub mod lb { pub trait Look { fn look(&self) -> u32; } }\n'
+                'impl la::Look for Impl<AppA> { fn look(&self) -> u32 { 3 } }\nimpl lb::Look for Impl<AppA> { fn look(&self) -> u32 { 4 } }\n'
+                'impl la::Look for Impl<AppB> { fn look(&self) -> u32 { 5 } }\nimpl lb::Look for Impl<AppB> { fn look(&self) -> u32 { 6 } }\n')
     src += block(TA, 1) + block(TB, 2)
     if dynamic:
         dsync = ' + Sync' if is_async else ''
         for app, tgt in (('AppA', TA), ('AppB', TB)):
-            src += (f'pub struct {app} {{ pub id: u32, pub tag: u32, pub repo: Box<dyn RepoImpl<{app}> + Send + Sync> }}\n'
-                    f'impl AsRef<dyn RepoImpl<{app}>{dsync}> for {app} {{ fn as_ref(&self) -> &(dyn RepoImpl<{app}>{dsync} + \'static) {{ self.repo.as_ref() }} }}\n'
+            # the application offers BOTH conversions; the one the attribute did not select leads to the other target
+            sel_tr, sel_m, dec_tr, dec_m = (('core::borrow::Borrow', 'borrow', 'AsRef', 'as_ref') if borrow else ('AsRef', 'as_ref', 'core::borrow::Borrow', 'borrow'))
+            src += (f'pub struct {app} {{ pub id: u32, pub tag: u32, pub repo: Box<dyn RepoImpl<{app}> + Send + Sync>, pub decoy: Box<dyn RepoImpl<{app}> + Send + Sync> }}\n'
+                    f'impl {sel_tr}<dyn RepoImpl<{app}>{dsync}> for {app} {{ fn {sel_m}(&self) -> &(dyn RepoImpl<{app}>{dsync} + \'static) {{ self.repo.as_ref() }} }}\n'
+                    f'impl {dec_tr}<dyn RepoImpl<{app}>{dsync}> for {app} {{ fn {dec_m}(&self) -> &(dyn RepoImpl<{app}>{dsync} + \'static) {{ self.decoy.as_ref() }} }}\n'
                     f'impl HasId for Impl<{app}> {{ fn id(&self) -> u32 {{ self.id }} }}\n'
                     f'impl HasTag for Impl<{app}> {{ fn tag(&self) -> u32 {{ self.tag }} }}\n')
-        mk = {'AppA': f'AppA {{ id, tag, repo: Box::new({TA}) }}', 'AppB': f'AppB {{ id, tag, repo: Box::new({TB}) }}'}
+        mk = {'AppA': f'AppA {{ id, tag, repo: Box::new({TA}), decoy: Box::new({TB}) }}', 'AppB': f'AppB {{ id, tag, repo: Box::new({TB}), decoy: Box::new({TA}) }}'}
     else:
         for app, tgt in (('AppA', TA), ('AppB', TB)):
             src += (f'pub struct {app} {{ pub id: u32, pub tag: u32 }}\n'
@@ -437,7 +455,7 @@ def c07_program(pid, dynamic, n_methods, is_async, async_trait, impl_deps, same_
                     f'    rt::reset();\n    let dir = {call(f"{tn}::m{i + 1}(&app, a, b)")};\n'
                     f'    assert!(via == dir, "result unchanged");\n    kani::cover!(true);\n}}\n')
             hs.append(h)
-    desc = f'inversion {"dynamic" if dynamic else "static"} methods={n_methods} async={is_async} async_trait={async_trait} impl_deps={impl_deps} path_targets={path_targets}'
+    desc = f'inversion {("dynamic-" + ("Borrow" if borrow else "ref")) if dynamic else "static"} methods={n_methods} async={is_async} async_trait={async_trait} impl_deps={impl_deps} path_targets={path_targets}'
     return Program(pid, desc, src, hs, ['C07'])
 
 
@@ -450,6 +468,10 @@ def c07_corpus(tier, seed):
         nonlocal k
         k += 1
         return f'c07_{k:03d}'
+    progs.append(c07_program(pid(), 'Borrow', 2, False, False, ['gen', 'id']))
+    progs.append(c07_program(pid(), 'Borrow', 1, True, True, ['ent']))
+    progs.append(c07_program(pid(), False, 2, False, False, ['twolast', 'id']))
+    progs.append(c07_program(pid(), True, 1, False, False, ['twolast']))
     for dynamic in (False, True):
         progs.append(c07_program(pid(), dynamic, 2, False, False, ['gen', 'id']))
         progs.append(c07_program(pid(), dynamic, 3, False, False, ['idtag', 'ent', 'gen']))
